@@ -337,6 +337,14 @@ def stream_objective(ck: Check, impl: Impl) -> None:
         cfg = rand_cfg(rng, n, rounds, rng.random() < 0.9)
         for _ in range(per_inst):
             todo.append(("objective", n, rounds, cfg, rand_plan(rng, n, rounds, rng.choice(KINDS))))
+    # long seasons: the number of days / of meetings of a pair exceeds the int8 range although the team ids do not
+    # (the scratch arrays' type is chosen from (n-1)*rounds, the plan's type from n) - cf. seeded change C15-int8-day-counter
+    for n, rounds in ([(2, 100), (4, 42), (4, 43), (4, 86), (6, 26)] if ck.quick else
+                      [(2, 100), (2, 64), (4, 42), (4, 43), (4, 44), (4, 86), (4, 100), (6, 26), (6, 52), (8, 19), (10, 15)]):
+        for valid in (True, True, False):
+            cfg = rand_cfg(rng, n, rounds, valid)
+            for kind in rng.sample(KINDS, min(len(KINDS), 3 if ck.quick else 5)):
+                todo.append(("long-season", n, rounds, cfg, rand_plan(rng, n, rounds, kind)))
     lines, expect = [], []
     cache: dict = {}
     for stream, n, rounds, cfg, plan in todo:
